@@ -601,6 +601,10 @@ class Resource(object):
         except AttributeError:
             raise ValueError('The resource requires an EObject-like object, '
                              f'but received {type(root)} instead.')
+        if root._eresource is self and root in self.contents:
+            return
+        if root._eresource is not None:
+            root._eresource.remove(root)
         self.contents.append(root)
         root._eresource = self
         if root._container is not None:
